@@ -109,6 +109,7 @@ def reanalyse(fn_node, kind, seed):
     r.mapping = choose_mapping(fn_node, rng)
     try:
         edited = apply_edit(fn_node, kind, r.mapping)
+        ast.fix_missing_locations(edited)
         r.edited_source = ast.unparse(edited)
         fresh = ast.parse(r.edited_source).body[0]
     except Exception as e:  # noqa: an edit the utilities reject / an unparsable result is not a finding
@@ -118,5 +119,6 @@ def reanalyse(fn_node, kind, seed):
     fr_impl = c08_real.Impl(fresh)              # … and on a freshly parsed copy of the same program
     r.re_text, r.fresh_text = re_impl.text(), fr_impl.text()
     r.ser_text = fr_impl.ser.text()
+    r.lambda_body_ids = {str(fr_impl.ser.id_of(n.body)) for n in ast.walk(fresh) if isinstance(n, ast.Lambda)}
     r.model_comparable = not (fr_impl.crash or c08_real.literal_aliasing(fresh) or c08_real.has_unknown(fr_impl.ser.sexp))
     return r
